@@ -1,5 +1,5 @@
 SPECIFICATION Spec
-CONSTANT Bug = "none"
+CONSTANT Bug = "permit_at_graphnode"
 INVARIANT Bounded
 INVARIANT PermitsOK
 INVARIANT AllRan
